@@ -163,12 +163,6 @@ Proof. rewrite <- akey_eqb_spec. destruct (akey_eqb a b); split; congruence. Qed
 (* ------------------------------------------------------------------ *)
 (* structural invariant kept by every op: canonical maps, stores and instances in step *)
 
-Definition Struct (st : state) : Prop :=
-  nsorted (st_stores st) /\ nsorted (st_insts st) /\
-  (forall w, nmem w (st_stores st) = nmem w (st_insts st)) /\
-  (forall w s, get_store st w = Some s -> store_sorted s).
-
-Definition Owned (st : state) : Prop := forall w s, get_store st w = Some s -> store_owned s.
 
 Lemma WFs_split st : WFs st <-> Struct st /\ Owned st.
 Proof.
@@ -563,18 +557,16 @@ Proof.
     { unfold get_store, upsert_instance; cbn. rewrite nf_set. destruct (N.eqb_spec (ak_warp k) cw); [contradiction|exact Gp]. }
     rewrite G1. intros E; inversion E; subst st'. clear E. intros sl.
     pose proof (Struct_store _ _ _ HS Gp) as Hss.
-    rewrite look_put_store. unfold att_slot.
+    rewrite look_put_store, look_upsert_instance.
     destruct (ak_edge k) eqn:Ek.
-    + destruct sl; cbn [wr slot_eqb slot_warp look slook]; rewrite ?Ek; cbn [slot_eqb];
-        rewrite ?look_upsert_instance; cbn [slot_warp];
+    + destruct sl; cbn [wr slot_eqb slot_warp]; unfold att_slot; rewrite ?Ek; cbn [slot_eqb slot_warp];
         rewrite ?slook_set_edge_att by exact Hss; rewrite ?slook_insert_node, ?slook_empty;
         eqb_cases; cbn [andb orb]; try reflexivity; try congruence;
-        try (cbn [look slot_warp]; rewrite ?Gp, ?Gc; reflexivity).
-    + destruct sl; cbn [wr slot_eqb slot_warp look slook]; rewrite ?Ek; cbn [slot_eqb];
-        rewrite ?look_upsert_instance; cbn [slot_warp];
+        try (cbn [look slot_warp slook]; rewrite ?Gp, ?Gc; reflexivity).
+    + destruct sl; cbn [wr slot_eqb slot_warp]; unfold att_slot; rewrite ?Ek; cbn [slot_eqb slot_warp];
         rewrite ?slook_set_node_att by exact Hss; rewrite ?slook_insert_node, ?slook_empty;
         eqb_cases; cbn [andb orb]; try reflexivity; try congruence;
-        try (cbn [look slot_warp]; rewrite ?Gp, ?Gc; reflexivity).
+        try (cbn [look slot_warp slook]; rewrite ?Gp, ?Gc; reflexivity).
   - (* UpsertWI *)
     intros E; inversion E; subst st'. clear E. intros sl. rewrite look_upsert_instance.
     destruct (get_store st w) as [s|] eqn:G.
@@ -614,16 +606,172 @@ Proof.
   - (* SetAtt *)
     unfold apply_set_att. destruct (plane_valid k); cbn [negb]; [|discriminate].
     destruct (get_store st (ak_warp k)) as [s|] eqn:G; [|discriminate].
-    pose proof (Struct_store _ _ _ HS G) as Hss. unfold att_slot.
+    pose proof (Struct_store _ _ _ HS G) as Hss.
     destruct (ak_edge k) eqn:Ek.
     + destruct (has_edge s (ak_id k)); [|discriminate]. intros E; inversion E; subst st'. clear E.
       intros sl. rewrite look_put_store.
-      destruct sl; cbn [wr slot_eqb slot_warp]; rewrite ?slook_set_edge_att by exact Hss; eqb_cases;
+      destruct sl; cbn [wr slot_eqb slot_warp]; unfold att_slot; rewrite ?Ek; cbn [slot_eqb slot_warp];
+        rewrite ?slook_set_edge_att by exact Hss; eqb_cases;
         cbn [andb]; try reflexivity; try congruence; try (cbn [look slot_warp]; rewrite G; reflexivity).
     + destruct (nfind (ak_id k) (s_nodes s)); [|discriminate]. intros E; inversion E; subst st'. clear E.
       intros sl. rewrite look_put_store.
-      destruct sl; cbn [wr slot_eqb slot_warp]; rewrite ?slook_set_node_att by exact Hss; eqb_cases;
+      destruct sl; cbn [wr slot_eqb slot_warp]; unfold att_slot; rewrite ?Ek; cbn [slot_eqb slot_warp];
+        rewrite ?slook_set_node_att by exact Hss; eqb_cases;
         cbn [andb]; try reflexivity; try congruence; try (cbn [look slot_warp]; rewrite G; reflexivity).
+Qed.
+
+(* ------------------------------------------------------------------ *)
+(* a whole op list as a fold of writes *)
+
+Fixpoint fold_wr (l : list op) (f : slot -> option sval) : slot -> option sval :=
+  match l with [] => f | o :: r => fold_wr r (upd o f) end.
+
+Lemma fold_wr_app l1 l2 f : fold_wr (l1 ++ l2) f = fold_wr l2 (fold_wr l1 f).
+Proof. revert f; induction l1 as [|o l1 IH]; intros f; cbn; auto. Qed.
+
+Lemma fold_wr_ext l : forall f g, (forall sl, f sl = g sl) -> forall sl, fold_wr l f sl = fold_wr l g sl.
+Proof.
+  induction l as [|o l IH]; intros f g H sl; cbn; auto.
+  apply IH. intros sl'. unfold upd. rewrite H. reflexivity.
+Qed.
+
+Lemma fold_wr_none l : forall f sl, (forall o, In o l -> wr o sl = None) -> fold_wr l f sl = f sl.
+Proof.
+  induction l as [|o l IH]; intros f sl H; cbn; auto.
+  rewrite IH by (intros o' Hin; apply H; right; exact Hin).
+  unfold upd. rewrite (H o (or_introl eq_refl)). reflexivity.
+Qed.
+
+(* every OpenPortal in the list creates its child: the instance slot of its child is empty when it runs *)
+Definition ports_fresh (l : list op) (f0 : slot -> option sval) : Prop :=
+  forall pre k cw cr init post, l = pre ++ OpenPortal k cw cr init :: post ->
+    init <> None /\ fold_wr pre f0 (SInst cw) = None.
+
+Lemma apply_loop_effect l : forall st t st' t', Struct st -> ports_fresh l (look st) ->
+  apply_loop st t l = Ok (st', t') -> forall sl, look st' sl = fold_wr l (look st) sl.
+Proof.
+  induction l as [|o l IH]; intros st t st' t' HS Hpf; cbn [apply_loop fold_wr].
+  - intros E; inversion E; subst; reflexivity.
+  - destruct (apply_op st o) as [st1|] eqn:E1; [|discriminate]. intros E sl.
+    assert (Hside : port_side st o).
+    { destruct o; cbn; auto. destruct (Hpf [] k child_warp child_root init l eq_refl) as [Hi Hn].
+      split; [|exact Hi]. cbn in Hn. destruct (get_inst st child_warp); [discriminate|reflexivity]. }
+    pose proof (apply_op_effect st o st1 HS Hside E1) as Heff.
+    rewrite (IH st1 (t || touches st o) st' t' (apply_op_Struct _ _ _ HS E1)); [| |exact E].
+    + apply fold_wr_ext. exact Heff.
+    + intros pre k cw cr init post El. subst l.
+      destruct (Hpf (o :: pre) k cw cr init post eq_refl) as [Hi Hn]. split; [exact Hi|].
+      cbn [fold_wr] in Hn. rewrite <- Hn. apply fold_wr_ext. exact Heff.
+Qed.
+
+(* ------------------------------------------------------------------ *)
+(* sorting by sort_key *)
+
+Lemma key_order : OrderLaws key_cmp.
+Proof. unfold key_cmp. repeat apply pair_order; apply N_order. Qed.
+
+Definition ople (a b : op) : Prop := key_cmp (sort_key a) (sort_key b) <> Gt.
+
+Lemma cmp_le_trans {K} (c : K -> K -> comparison) (L : OrderLaws c) x y z :
+  c x y <> Gt -> c y z <> Gt -> c x z <> Gt.
+Proof.
+  intros H1 H2. destruct (c x y) eqn:E1; [|clear H1|congruence].
+  - apply (ol_eq c L) in E1; subst; exact H2.
+  - destruct (c y z) eqn:E2; [|clear H2|congruence].
+    + apply (ol_eq c L) in E2; subst. rewrite E1. discriminate.
+    + rewrite (ol_trans c L _ _ _ E1 E2). discriminate.
+Qed.
+
+Lemma cmp_le_antisym {K} (c : K -> K -> comparison) (L : OrderLaws c) x y :
+  c x y <> Gt -> c y x <> Gt -> x = y.
+Proof.
+  intros H1 H2. rewrite (ol_antisym c L x y) in H2. destruct (c x y) eqn:E; cbn in H2; try congruence.
+  apply (ol_eq c L); exact E.
+Qed.
+
+Lemma ople_trans a b c : ople a b -> ople b c -> ople a c.
+Proof. apply (cmp_le_trans key_cmp key_order). Qed.
+
+Lemma ople_antisym a b : ople a b -> ople b a -> sort_key a = sort_key b.
+Proof. apply (cmp_le_antisym key_cmp key_order). Qed.
+
+Lemma key_lt_ople a b : key_cmp (sort_key a) (sort_key b) = Lt -> ople a b.
+Proof. unfold ople. intros ->. discriminate. Qed.
+
+Lemma key_lt_not_ople a b : key_cmp (sort_key a) (sort_key b) = Lt -> ~ ople b a.
+Proof. unfold ople. intros H. rewrite (ol_antisym _ key_order), H. cbn. auto. Qed.
+
+Lemma insert_op_perm o l : Permutation (o :: l) (insert_op o l).
+Proof.
+  induction l as [|x r IH]; cbn; [reflexivity|].
+  destruct (key_cmp (sort_key o) (sort_key x)); try reflexivity;
+    (eapply perm_trans; [apply perm_swap|apply perm_skip, IH]).
+Qed.
+
+Lemma sort_ops_perm l : Permutation l (sort_ops l).
+Proof.
+  induction l as [|x r IH]; cbn; [reflexivity|].
+  eapply perm_trans; [apply perm_skip, IH|apply insert_op_perm].
+Qed.
+
+Lemma sort_ops_in o l : In o (sort_ops l) <-> In o l.
+Proof.
+  split; intros H.
+  - eapply Permutation_in; [apply Permutation_sym, sort_ops_perm|exact H].
+  - eapply Permutation_in; [apply sort_ops_perm|exact H].
+Qed.
+
+Lemma insert_op_sorted o l : StronglySorted ople l -> StronglySorted ople (insert_op o l).
+Proof.
+  induction l as [|x r IH]; cbn; intros HS.
+  - constructor; constructor.
+  - inversion HS as [|x' r' HSr HF]; subst.
+    destruct (key_cmp (sort_key o) (sort_key x)) eqn:E.
+    + constructor; [apply IH, HSr|].
+      rewrite Forall_forall. intros y Hy.
+      apply (Permutation_in _ (Permutation_sym (insert_op_perm o r))) in Hy. destruct Hy as [<-|Hy].
+      * unfold ople. rewrite (ol_antisym _ key_order), E. discriminate.
+      * rewrite Forall_forall in HF. apply HF, Hy.
+    + constructor; [exact HS|]. constructor; [unfold ople; rewrite E; discriminate|].
+      rewrite Forall_forall in *. intros y Hy. eapply ople_trans; [|apply HF, Hy].
+      unfold ople; rewrite E; discriminate.
+    + constructor; [apply IH, HSr|].
+      rewrite Forall_forall. intros y Hy.
+      apply (Permutation_in _ (Permutation_sym (insert_op_perm o r))) in Hy. destruct Hy as [<-|Hy].
+      * unfold ople. rewrite (ol_antisym _ key_order), E. discriminate.
+      * rewrite Forall_forall in HF. apply HF, Hy.
+Qed.
+
+Lemma sort_ops_sorted l : StronglySorted ople (sort_ops l).
+Proof. induction l as [|x r IH]; cbn; [constructor|apply insert_op_sorted, IH]. Qed.
+
+Lemma ssorted_snoc l x : StronglySorted ople (l ++ [x]) ->
+  StronglySorted ople l /\ forall y, In y l -> ople y x.
+Proof.
+  induction l as [|a l IH]; cbn; intros H.
+  - split; [constructor|intros y []].
+  - inversion H as [|a' l' HS HF]; subst. destruct (IH HS) as [H1 H2]. split.
+    + constructor; [exact H1|]. rewrite Forall_forall in *. intros y Hy. apply HF, in_or_app; left; exact Hy.
+    + intros y [<-|Hy]; [|apply H2, Hy]. rewrite Forall_forall in HF. apply HF, in_or_app. right; left; reflexivity.
+Qed.
+
+(* the value of a slot after a sorted op list is what the writer with the greatest key wrote *)
+Lemma fold_wr_last l : forall f sl o c,
+  StronglySorted ople l -> In o l -> wr o sl = Some c ->
+  (forall o', In o' l -> wr o' sl <> None ->
+     ople o' o /\ (sort_key o' = sort_key o -> wr o' sl = Some c)) ->
+  fold_wr l f sl = c.
+Proof.
+  induction l as [|x l IH] using rev_ind; intros f sl o c HS Hin Hw Hmax; [destruct Hin|].
+  rewrite fold_wr_app. cbn [fold_wr]. destruct (ssorted_snoc _ _ HS) as [HSl Hle].
+  unfold upd. destruct (wr x sl) as [c'|] eqn:Ex.
+  - destruct (Hmax x) as [H1 H2]; [apply in_or_app; right; left; reflexivity|congruence|].
+    assert (Hox : ople o x).
+    { apply in_app_or in Hin. destruct Hin as [Hin|[<-|[]]]; [apply Hle, Hin|].
+      unfold ople. rewrite (proj2 (ol_eq _ key_order _ _) eq_refl). discriminate. }
+    rewrite (H2 (ople_antisym _ _ H1 Hox)) in Ex. congruence.
+  - apply in_app_or in Hin. destruct Hin as [Hin|[<-|[]]]; [|congruence].
+    apply (IH f sl o c HSl Hin Hw). intros o' Hin' Hw'. apply Hmax; [apply in_or_app; left; exact Hin'|exact Hw'].
 Qed.
 
 (* ------------------------------------------------------------------ *)
